@@ -191,7 +191,7 @@ class HierarchyAnalyzerBase:
             # Find the combination index, excluding known infeasible graphs
             include_mask = feasibility_mask
             if mask is not None:
-                include_mask &= mask
+                include_mask = include_mask & mask  # Not in-place: the feasibility mask should not depend on the mask
             i_comb, choice_opt_idx = self._get_comb_idx(opt_idx, include_mask=include_mask)
             if i_comb is None:
                 raise RuntimeError('No more feasible architectures!')
@@ -218,7 +218,7 @@ class HierarchyAnalyzerBase:
         else:
             include_mask = np.ones((self.n_combinations,), dtype=bool)
         if mask is not None:
-            include_mask &= mask
+            include_mask = include_mask & mask  # Not in-place: the feasibility mask should not depend on the mask
 
         i_comb, sel_choice_idx = self._get_comb_idx(opt_idx, include_mask=include_mask)
         if i_comb is None:
